@@ -122,13 +122,13 @@ ADDED = {
     "C07": " Also: every moment update of the six Gaussian update functions is executed on every non-raising path (CFG must-pass-through). Also: every closed-form block is free of config.hbar; the S_(c) matrices printed in the class docstrings equal [[P, A], [conj A, conj P]] assembled from the blocks (LaTeX fragment reader); the steps registered for gates keep the requested mode order (no sorted image, no order-insensitive shortcut). Also: (g) ownership of the Gaussian second moments - only the update helpers assign C and G (always both); the registered steps never do and change m only additively; helper methods of a gate class are evaluated in place by the closed-form engine.",
     "C08": " Also: a triangle of a density matrix mirrored by plain transposition is reported; the attenuator's weight equals the channel formula its docstring states (when stated). Also: (b) every update of the mixed-Fock density matrix has a Hermiticity-preserving form (K rho K^dagger with the same K on both sides, an elementwise factor exp(i(g(ket) - g(bra))), an explicit conjugate-transpose mirror fill) and the attenuator's weights are symmetric under ket <-> bra. Also: a second update of the attenuator at the swapped (bra, ket) index must add the complex conjugate of the primary value. Also: (c) the Gaussian channel updates the covariance matrix by a congruence (right factor = transpose of the left factor), as one expression or as a row update followed by a column update.",
     "C09": " Also: (e) a connector's hand-written polar decomposition has the contract of scipy.linalg.polar (P^2 = M^dagger M, U = M P^-1 on the right; P^2 = M M^dagger, U = P^-1 M on the left), decided in the matrix-word algebra; the result of connector.assign bound to a local that is never read again is reported (lost update under functional connectors). Also: (d) the NumPy/numba and the JAX implementation of the Gaussian density-matrix recurrence have the same normal form (pivot, initial term, loop summands, divisor). Also: (e) polar methods that delegate to a library polar on a transformed matrix return factors whose product is the matrix (word algebra with a Hermitian polar factor); (f) the array handed to connector.assign is consumed - after `B = connector.assign(A, ...)` neither A nor an alias of A is read again on any CFG path (NumPy updates it in place, JAX/TensorFlow do not). Also: (g) the formula used for traced angles in GaussianState.get_phaseshifter_expectation_value has the same kernel as the eager formula: both exponents u^dagger T u are compared through the symbolic inverses of their kernels in an algebra where diagonal matrices commute with each other but not with the covariance, and the diagonal parts are compared as functions of the angle (sympy).",
-    "C11": " Also: (g) no Python code reads the worker count (numba.get_num_threads, NUMBA_NUM_THREADS, cpu_count); (h) a hand-written cache keys on every attribute of self that the cached method reads and that a method other than __init__ re-assigns or mutates. Also: the seed of every privately constructed generator is traced to a read of the seed_sequence property; no object shared by the shots of a dask region (bound by partial, free variable of the per-shot closure) is written in place by the per-shot callable; the jobs of the native permanent tile the Gray-code range exactly for every job count (S(0)=0, E(K-1)=M-1, S(j+1)=E(j)+1, proved by case split over the comparisons). Also: (h, module-level form) a dict bound at module level and filled under `if key not in CACHE` is keyed on every input (access path rooted at a parameter) the stored value is computed from. Also: the identity of arrays updated through connector.assign is not a cache key; a shared Generator is replaced, never re-seeded in place.",
+    "C11": " Also: (g) no Python code reads the worker count (numba.get_num_threads, NUMBA_NUM_THREADS, cpu_count); (h) a hand-written cache keys on every attribute of self that the cached method reads and that a method other than __init__ re-assigns or mutates. Also: the seed of every privately constructed generator is traced to a read of the seed_sequence property; no object shared by the shots of a dask region (bound by partial, free variable of the per-shot closure) is written in place by the per-shot callable; the jobs of the native permanent tile the Gray-code range exactly for every job count (S(0)=0, E(K-1)=M-1, S(j+1)=E(j)+1, proved by case split over the comparisons). Also: (h, module-level form) a dict bound at module level and filled under `if key not in CACHE` is keyed on every input (access path rooted at a parameter) the stored value is computed from. Also: the identity of arrays updated through connector.assign is not a cache key; a shared Generator is replaced, never re-seeded in place. Every path of the seed setter that re-creates the numpy generator re-seeds Python's global generator too.",
     "C06": " Also: (d) the accumulators of the vectorised index functions have a literal integer dtype of at least 32 bits, never the dtype of the argument. Also: (e) loop invariant of comb / arr_comb decided with sympy: the accumulator starts at 1 and one iteration maps C(n, i) to C(n, i + 1), so the division inside the loop is exact, intermediates are binomial coefficients and the accumulator itself is returned. The same clause requires the symmetric reduction: the loop runs min(k, n - k) times (scalar re-binding of k, or an elementwise guard on the update), so no intermediate exceeds n times the result (finding 34).",
     "C12": " Also: (f) branches built in a loop do not share one state object (the simulator evolves branch states in place); shallow copies (copy.copy) keep their element aliases, the parts of a memoised object reached through attributes belong to it and attribute stores on them are writes. Also: a shallow copy.copy of a registered instruction is not a copy (the parameter dictionaries stay shared).",
     "C13": " Also: (g) accumulator protocol for every cutoff >= 1: a constant index written into connector.accumulator(size=cutoff) is below the size and the start of a connector.range does not exceed its limit (fixed-size tf.TensorArray, tf.range). Also: the preparation-order validator may only test isinstance(., Preparation) (closed world). Also: (h) the number of modes inferred from a program is an aggregate (max) over all modes of every instruction, never one element of a mode tuple; (i) GaussianTransform._validate tests both Bogoliubov conditions - is_symplectic on the assembled [[P, A], [conj A, conj P]] with the complex symplectic form, or both block identities, compared in the matrix-word algebra.",
     "C14": " Also: doubling layouts - v.repeat(2) is pairwise (xpxp-like), concatenate([v, v]) / tile(v, 2) and the complex covariance / displacement are block (xxpp-like); sums and products combine one layout. Also: (c) every GaussianState constructed inside the library receives the config of the state it is derived from (hbar lives there); (d) ordering tags xpxp/xxpp: the index maps are applied to quantities of the source ordering, sums and products combine one ordering, ordering-named getters/setters return/receive that ordering. Also: elements of an ordering index map are positions in its source ordering; a callee that uses the elements of one parameter as indices into other parameters (summary by dataflow, also through nested functions) must receive positions and quantities of one ordering. Also: tolerance-based zero tests (allclose / isclose with 0) are applied to quantities of hbar-degree 0.",
     "C15": " Also: (c) each Givens step of the Clements sweep nulls one element of the addressed pair for the angles _get_angles returns, symbolically for every non-zero pivot and with the degenerate arm's constants for a zero pivot.",
-    "C16": " Also: the rule is applied per mode-tuple source when a function handles two (register and instruction), to return-based shortcuts, to sequential positional edits (np.insert / delete / pop at positions from the mode tuple inside a loop over it), and to the methods of Program, Simulator and Instruction. Also: a fullness test by length, or any test over order-insensitive aggregates of the mode tuple (len/min/max/sum/set) that substitutes a value ignoring the tuple; the complement of the complement; outcome projections that run in parallel with the mode tuple. Also: (e) a state reduced to the measured modes is never addressed again with the original mode labels (no double relabelling, also through a parameter of a nested function); sequential `del x[p]` at positions from the mode tuple inside a loop over the tuple or its reverse. Also: parameters named *_modes are mode-tuple sources wherever they occur; an elementwise image of a sorted tuple is as order-destroyed as the sorted tuple. Masks obtained by negating the mask of the complement are masks of the mode tuple.",
+    "C16": " Also: the rule is applied per mode-tuple source when a function handles two (register and instruction), to return-based shortcuts, to sequential positional edits (np.insert / delete / pop at positions from the mode tuple inside a loop over it), and to the methods of Program, Simulator and Instruction. Also: a fullness test by length, or any test over order-insensitive aggregates of the mode tuple (len/min/max/sum/set) that substitutes a value ignoring the tuple; the complement of the complement; outcome projections that run in parallel with the mode tuple. Also: (e) a state reduced to the measured modes is never addressed again with the original mode labels (no double relabelling, also through a parameter of a nested function); sequential `del x[p]` at positions from the mode tuple inside a loop over the tuple or its reverse. Also: parameters named *_modes are mode-tuple sources wherever they occur; an elementwise image of a sorted tuple is as order-destroyed as the sorted tuple. Masks obtained by negating the mask of the complement are masks of the mode tuple. Prefix / suffix slices of the mode tuple keep its order; membership masks (np.isin(np.arange(d), modes)) are masks of the mode tuple and selections through masks are reported like stores.",
     "C17": " Also: (e) in a guarded gate step of the fermionic Fock simulator the coefficients that multiply amplitudes read from the state vector are loop-invariant (depend on the gate parameters, never on the basis state visited: on adjacent modes the Jordan-Wigner strings cancel); (f) every implementation of calculate_interferometer_on_fermionic_fock_space appends exactly one constant (first, zero particles) and every later representation depends on the matrix and, inside the loop, on a previous representation. Also: the predicate the adjacency guards rely on (are_modes_consecutive) looks at the elements of the tuple, not only at single elements and order-insensitive aggregates (first, last, length). Also: (g) a step of the fermionic Gaussian simulator that reads the normal block D also reads the pairing block E; (e) counts control dependence for coefficients with several definitions.",
     "C18": " Also: every use of an operand's raw amplitude map in __add__ is weighted by that operand's coefficient. Also: `map.get(key, default)` on an operand's raw amplitude map is a read of a raw amplitude like `map[key]`.",
     "C19": " Also: no one-sided skip guard around emitted instructions; no sorted/set image of a gate's qubit operands; no bit resolved by its position in an instruction's own operand list. Also: a bit's own `_index` (its position inside its register) is never used: qubits and classical bits are resolved with find_bit(bit).index, so circuits built from several quantum / classical registers address the right modes and the right measurement. Also: (c) also through locals computed from `.qubits`; (e) the condition built for a classical bit reads the outcomes at positions computed from that bit's index, never at fixed positions.",
